@@ -17,6 +17,17 @@ import (
 func LoadDisabledRows(findingsDir string) map[string]bool {
 	out := map[string]bool{}
 	files, _ := filepath.Glob(filepath.Join(findingsDir, "C01-*.rows"))
+	files = append(files, filepath.Join(findingsDir, "D-rejected-noclient.rows"))
+	// rows rejected only under --client are recorded with a "client:" prefix
+	if fh, err := os.Open(filepath.Join(findingsDir, "D-rejected-client.rows")); err == nil {
+		sc := bufio.NewScanner(fh)
+		for sc.Scan() {
+			if l := strings.TrimSpace(sc.Text()); l != "" {
+				out["client:"+l] = true
+			}
+		}
+		fh.Close()
+	}
 	for _, f := range files {
 		fh, err := os.Open(f)
 		if err != nil {
@@ -38,6 +49,9 @@ func LoadDisabledRows(findingsDir string) map[string]bool {
 // (…/optional, …/required) is a listed known failure.
 func (c *Ctx) rowDisabled(id string) bool {
 	if c.Disabled[id] || c.Disabled[id+"/optional"] || c.Disabled[id+"/required"] {
+		return true
+	}
+	if c.NeedClient && (c.Disabled["client:"+id] || c.Disabled["client:"+id+"/optional"] || c.Disabled["client:"+id+"/required"]) {
 		return true
 	}
 	return false
